@@ -471,6 +471,17 @@ def waitpool_cancel_race(ctx, res, rng, idx):
                             canceled[t['uid']] = canceled.get(t['uid'], 0) + 1
             return placed, canceled
 
+        def pool_uids():
+            # the loop thread changes the pools while we look: a torn read
+            # (dict changed size during iteration) is read again
+            for _ in range(1000):
+                try:
+                    return [u for p in list(pair.child._waitpool.values())
+                              for u in list(p)]
+                except RuntimeError:
+                    time.sleep(0.001)
+            raise RuntimeError('wait pool cannot be read')
+
         def settle(pred, limit=20.0):
             t0 = time.time()
             while time.time() - t0 < limit:
@@ -488,9 +499,7 @@ def waitpool_cancel_race(ctx, res, rng, idx):
             return
         env.put(rpc.AGENT_SCHEDULING_QUEUE, [mk(u) for u in waiting])
         pair.intake()
-        if not settle(lambda: sum(len(p) for p in
-                                  pair.child._waitpool.values()) ==
-                              len(waiting)):
+        if not settle(lambda: len(pool_uids()) == len(waiting)):
             res.inconc('wait pool race: tasks did not reach the wait pool')
             return
 
@@ -527,7 +536,7 @@ def waitpool_cancel_race(ctx, res, rng, idx):
             return
         res.count('waitpool_race_histories')
         pl, ca = outcomes()
-        pool = {u for p in pair.child._waitpool.values() for u in p}
+        pool = set(pool_uids())
         ctx_ = {'case': case, 'victims': victims,
                 'placed': {u: len(v) for u, v in pl.items()},
                 'canceled': ca, 'pool': sorted(pool)}
